@@ -1,6 +1,7 @@
 import Gmx.Model.Perp
 import Gmx.Driver.Market
 import Gmx.Model.Liquidity
+import Gmx.Model.Swap
 -- ENGINE perp PerpE.perpEngine stateful Gmx.Drv.PerpE.PerpDb []
 /-! driver engine `perp` — C07, C08, C09, C10 (positions over the market state).
 
@@ -9,7 +10,7 @@ import Gmx.Model.Liquidity
 · `perp ubor <sid> <6 prices>` · `perp ufund <sid> <6 prices>` · `perp open <sid> <pid> <isLong> <collLong>`
 · `perp inc <sid> <pid> <collateral> <size> <6 prices>` · `perp dec <sid> <pid> <size> <withdraw> <insolvent> <liquidation> <cap> <6 prices>`
 · `perp chk <sid> <pid> <minCollUsd> <forLiq> <6 prices>` (check_liquidatable, read only)
-· `perp dep <sid> <long> <short> <6 prices>` · `perp wdr <sid> <market tokens> <6 prices>` · `perp pv <sid> <kind> <maximize> <6 prices>`
+· `perp swap <sid> <isInLong> <amount> <6 prices>` · `perp dep <sid> <long> <short> <6 prices>` · `perp wdr <sid> <market tokens> <6 prices>` · `perp pv <sid> <kind> <maximize> <6 prices>`
   (mkt-liq's deposit / withdraw / pool_value WITH the open interest of the session: pending borrowing fees, capped pnl).
 A failing operation leaves the state unchanged. Every response ends with `| <market digest> | <positions>`. -/
 namespace Gmx.Drv.PerpE
@@ -166,6 +167,15 @@ def perpOp (db : PerpDb) (sid : String) (s : PerpSt) (op : String) (args : List 
           perpReply db sid { s with m := m' } s!"ok {r.longOut} {r.shortOut} {r.feesL.pool} {r.feesL.receiver} {r.feesS.pool} {r.feesS.receiver}"
         | (_, .error e) => perpReply db sid s (showMErr e)
     | _, _ => (db, "bad-op")
+  | "swap", il :: amt :: prices =>
+    match pBool il, pNat amt, allNat prices >>= parsePrices W with
+    | some il, some amt, some pr =>
+      if amt ≥ 2 ^ W then (db, "bad-op") else
+      match swap W U s.m ⟨il, amt, pr⟩ with
+      | .ok (m', c) =>
+        perpReply db sid { s with m := m' } s!"ok {c.tokenOut} {c.impactValue} {c.impactAmount} {c.fees.pool} {c.fees.receiver}"
+      | .error e => perpReply db sid s (showMErr e)
+    | _, _, _ => (db, "bad-op")
   | "pv", k :: mx :: prices =>
     match pNat k >>= pKind, pBool mx, allNat prices >>= parsePrices W with
     | some kind, some mx, some pr =>
